@@ -124,6 +124,48 @@ pub fn gen_sources(rng: &mut Rng, tier: &Tier) -> Vec<Case> {
         }
         cases.push(c);
     }
+    // adapter trees over scripted NON-fused leaves: what the adapters do after an inner end marker (Chain never polls
+    // its first source again, Take counts only items, the pads and Skip poll again, …) against the same adapter models
+    for _ in 0..tier.n(200, 2000) {
+        let burst = |rng: &mut Rng| -> String {
+            let n = rng.range(1, 6);
+            let v: Vec<String> =
+                (0..n).map(|_| if rng.chance(1, 3) { "-".to_string() } else { rng.range(-5, 5).to_string() }).collect();
+            format!("burst[{}]", v.join(","))
+        };
+        fn wrap(rng: &mut Rng, inner: String, other: String) -> String {
+            match rng.below(8) {
+                0 => format!("chain({},{})", inner, other),
+                1 => format!("chain({},{})", other, inner),
+                2 => format!("take({},{})", rng.range(0, 4), inner),
+                3 => format!("skip({},{})", rng.range(0, 4), inner),
+                4 => format!("padc({},{},{})", rng.range(-3, 3), rng.range(0, 2), inner),
+                5 => format!("pade({},{})", rng.range(0, 2), inner),
+                6 => format!("cache({})", inner),
+                _ => format!("cycle({})", inner),
+            }
+        }
+        let b = burst(rng);
+        let other = if rng.chance(1, 2) { burst(rng) } else { src_expr(rng, 1, true) };
+        let mut e = wrap(rng, b, other);
+        if rng.chance(1, 3) {
+            let other2 = src_expr(rng, 1, true);
+            e = wrap(rng, e, other2);
+        }
+        let top = *rng.pick(&["src", "src", "peek", "scache"]);
+        let mut c = vec![format!("new 1 {} {}", top, e)];
+        for _ in 0..rng.range(4, 16) {
+            match top {
+                "peek" => c.push(if rng.chance(1, 3) { "peek 1" } else { "pull 1" }.into()),
+                "scache" => {
+                    c.push("pull 1".into());
+                    c.push("cached 1".into());
+                }
+                _ => c.push("pull 1".into()),
+            }
+        }
+        cases.push(c);
+    }
     cases.extend(gen_source_cache(rng, tier));
     cases
 }
@@ -315,6 +357,35 @@ fn decorate(rng: &mut Rng, shape: &str, allow_or: bool) -> String {
 /// C01
 pub fn gen_pipes(rng: &mut Rng, tier: &Tier) -> Vec<Case> {
     let mut cases = Vec::new();
+    // statically typed pipes of stateful stages that are copied: `clone()` and `clone_from` into an existing pipe
+    for (name, shape, k) in crate::other::CPIPE_SHAPES {
+        for _ in 0..tier.n(4, 30) {
+            let leaves = |rng: &mut Rng| -> String { (0..k).map(|_| pipe_leaf(rng)).collect::<Vec<_>>().join("|") };
+            let mut c = vec![
+                format!("new 1 pipe shape={} leaves={} static={}", shape, leaves(rng), name),
+                format!("new 2 pipe shape={} leaves={} static={}", shape, leaves(rng), name),
+            ];
+            for _ in 0..rng.range(1, 5) {
+                c.push(format!("pf 1 {}", rng.range(-5, 5)));
+            }
+            for _ in 0..rng.range(0, 4) {
+                c.push(format!("pf 2 {}", rng.range(-5, 5)));
+            }
+            if rng.chance(1, 2) {
+                c.push("pclonefrom 2 1".into());
+            } else {
+                c.push("pclone 1 2".into());
+            }
+            for _ in 0..rng.range(2, 6) {
+                let x = rng.range(-5, 5);
+                c.push(format!("pf 1 {}", x));
+                c.push(format!("pf 2 {}", x));
+            }
+            c.push("pclonefrom 1 2".into());
+            c.push(format!("pf 1 {}", rng.range(-5, 5)));
+            cases.push(c);
+        }
+    }
     // statically typed nestings of zero-sized stages acting on state outside themselves (zpipes.rs)
     for (name, _, _, role) in crate::zpipes::menu() {
         for _ in 0..tier.n(3, 20) {
